@@ -97,6 +97,17 @@ Theorem C05_accepts_spec : forall (P : problem) xh yh dt rho kind tol res ip x y
   merit P xh yh dt rho kind xt yt <= tol \/ merit P xh yh dt rho kind xt yt <= res + c_1e4 * alpha * ip.
 Proof. exact accepts_spec. Qed.
 
+(* the direction the search uses is the dx StepResult has already corrected, so every trial point is a convex
+   combination of two points of the box and its clipping never moves it: the box invariant of the trial points does
+   not rest on that clipping *)
+Theorem C05_trial_point_unclipped : forall (P : problem) x y dx dy k,
+  Forall2 (fun l u => bnd_le l u = true) (var_lb P) (var_ub P) ->
+  length x = length (var_lb P) -> length dx = length x ->
+  in_box (var_lb P) (var_ub P) x = true ->
+  let '(dx0, dy0, _, _) := step_result P x y dx dy in
+  veq (fst (trial_point P x y dx0 dy0 (halves k 1))) (vsub x (vscale (halves k 1) dx0)).
+Proof. exact trial_point_unclipped. Qed.
+
 (* non-vacuity: f = x^2/2 on [-1, 3] from x = 1 with dt = rho = 1: the overshooting direction 4 is halved twice
    (trial points -3 -> clipped to -1, then -1, then 0: accepted), the ascent direction -1 is rejected 30 times *)
 Definition ex05 : problem := quad_problem (mk_qspec [[1]] [0] 0 [] [] [] [Some (-(1))] [Some 3] [] []).
@@ -126,3 +137,4 @@ Print Assumptions C05_globalized_step_in_box.
 Print Assumptions C05_globalized_step_spec.
 Print Assumptions C05_globalized_step_raises.
 Print Assumptions C05_accepts_spec.
+Print Assumptions C05_trial_point_unclipped.
